@@ -4,6 +4,7 @@
 //   insert(v) succeeds iff absent (then holds v); fails iff present
 //   remove    succeeds iff present (then absent); fails iff absent
 //   get       returns the held value, or nothing iff absent
+//   clear     (projection of a whole-index clear on this key) always succeeds, then absent
 // Wing-Gong search with memoisation over (set of linearized ops, state).
 #ifndef VERIF_LINCHECK_HPP
 #define VERIF_LINCHECK_HPP
@@ -19,7 +20,7 @@ namespace vl {
 
 using vh::u64;
 
-enum opkind : int { INSERT = 0, REMOVE = 1, GET = 2 };
+enum opkind : int { INSERT = 0, REMOVE = 1, GET = 2, CLEAR = 3 };  // CLEAR: projection of clear() on one key: always fits, leaves it absent
 
 constexpr u64 PENDING = ~u64{0};
 
@@ -33,7 +34,7 @@ struct op {
   int tag{0};        // free for the caller (e.g. index into its own op list; scan pseudo-gets)
 
   vh::json to_json() const {
-    static const char* names[] = {"insert", "remove", "get"};
+    static const char* names[] = {"insert", "remove", "get", "clear"};
     auto j = vh::json::object().set("op", names[kind]).set("thread", thread).set("call", call);
     if (ret == PENDING) j.set("ret", "pending"); else j.set("ret", ret);
     j.set("ok", ok);
@@ -89,6 +90,9 @@ class checker {
           if (pend) { fits = true; if (state == 0) next = o.value; }
           else if (o.ok) { fits = state == 0; next = o.value; }
           else fits = state != 0;
+          break;
+        case CLEAR:
+          fits = true; next = 0;
           break;
         case REMOVE:
           if (pend) { fits = true; next = 0; }
